@@ -506,6 +506,7 @@ fn make_ordinary(def: usize, name: usize, ewr: Option<usize>)
         drop(taken);
         *local += 1;
         cap += 1;
+        if runaway() { return; }
         let script = script_for(def, run);
         let owner = format!("s{name}");
         run_script(&mut c, &mut Ctx::Full(&mut acc), &script, &owner, run);
@@ -535,6 +536,7 @@ macro_rules! make_ewr_system {
                 drop(taken);
                 *local += 1;
                 cap += 1;
+                if runaway() { return; }
                 let script = script_for(def, run);
                 let owner = format!("s{name}");
                 run_script(&mut c, &mut Ctx::Full(&mut acc), &script, &owner, run);
@@ -556,6 +558,17 @@ fn probe_readers(mut ev: EvReaders, er: EntReaders, ents: &bevy::ecs::entity::En
     obs
 }
 thread_local! { static PROBE_TAKEN: RefCell<Vec<Payload>> = RefCell::new(Vec::new()); }
+thread_local! { static BODIES: std::cell::Cell<u32> = std::cell::Cell::new(0); }
+
+/// Counts the bodies of a scenario. No generated scenario runs more than a few hundred bodies (every instance executes
+/// each of its scripts once); beyond the cap the scripts are skipped so that an implementation which re-creates system
+/// state (and therefore re-runs first scripts forever) ends in a reportable trace instead of a stack overflow.
+fn runaway() -> bool
+{
+    let n = BODIES.with(|b| { b.set(b.get() + 1); b.get() });
+    if n == 400 { log("runaway".into()); }
+    n >= 400
+}
 
 /// An exclusive scripted system: samples the readers through a `Commands`-free nested syscall and queues its
 /// actions on the world queue.
@@ -573,6 +586,7 @@ fn make_exclusive(def: usize, name: usize) -> impl FnMut(&mut World, Local<u32>)
         drop(taken);
         *local += 1;
         cap += 1;
+        if runaway() { return; }
         let script = script_for(def, run);
         let owner = format!("s{name}");
         let mut c = world.commands();
@@ -819,6 +833,7 @@ fn run_scenario(path: &str)
     if text.lines().any(|l| l.trim() == "mode syscall") { syscall_mode::run(path, &text); return }
     let Some(sc) = parse_scenario(&text) else { println!("parse-error"); return };
     println!("scenario {path}");
+    BODIES.with(|b| b.set(0));
     SH.with(|s| *s.borrow_mut() = Shared{ defs: Arc::new(sc.defs.clone()), n_wr: sc.wrs.len(), n_ewr: sc.ewrs.len(), ..Default::default() });
 
     let result = std::panic::catch_unwind(std::panic::AssertUnwindSafe(|| {
